@@ -286,6 +286,18 @@ func init() {
 						}
 					}
 				}
+				// ... and a scheme that the configured table does NOT list is not special, whatever its name: under a table without
+				// file and https their hosts are opaque hosts
+				if !strings.ContainsAny(h, "\x00/\\?#@:[] \t\n\r<>^|") && isASCII(h) && h != "" && (i < total/8 || i >= total) {
+					cfg := cfgFromDesc("specialX")
+					for _, sc := range []string{"file", "https"} {
+						in := sc + "://" + h + "/x"
+						io := c.cmpParse(d, cfg, nil, in, allButVerrs, true, "ipv4-opaque:specialX", i)
+						if io.Kind != "U" || io.Fields[fHostname] != c0Encode(h) {
+							c.Report(Finding{Class: "violation", What: fmt.Sprintf("opaque host %q of a %s URL under a special-scheme table that does not list %s was reinterpreted: %s", h, sc, sc, io.String()), Case: Case{Kind: "parse", Cfg: cfg.Desc, Input: in, Family: "ipv4-opaque:specialX", Index: i}})
+						}
+					}
+				}
 				if !strings.ContainsAny(h, "\x00/\\?#@:[] \t\n\r<>^|") && isASCII(h) && h != "" {
 					in := "sc://" + h + "/x"
 					io := c.cmpParse(d, defaultCfg, nil, in, allButVerrs, true, "ipv4-opaque", i)
@@ -371,6 +383,14 @@ func init() {
 								tails = append(tails, "["+pre+strings.Join(ps, ".")+"]")
 							}
 						}
+					}
+				}
+			}
+			// pieces at the digit-count boundary (four hex digits, whatever their value) at every position of every shape
+			for _, pre := range []string{"", "::", "1::", "1:2:3:4:5:6:7:", "::1:"} {
+				for _, pc := range []string{"00001", "00000", "0abcd", "0ffff", "000ff", "0000000000000000", "0001", "ffff", "10000"} {
+					for _, post := range []string{"", "::", ":1", "::1", ":1.2.3.4", "::1.2.3.4"} {
+						tails = append(tails, "["+pre+pc+post+"]")
 					}
 				}
 			}
